@@ -3,6 +3,8 @@
 package lmd
 
 import (
+	"bufio"
+	"context"
 	"fmt"
 	"os"
 	"path/filepath"
@@ -26,6 +28,7 @@ type qeProfile struct {
 	tables                                                     []string
 	bothModes                                                  bool // run every text in both parse modes (C07)
 	downBackends                                               bool // put some backends into down state (C04)
+	roundtrip                                                  bool // C17: also run Request.String() of the parsed request
 	rule                                                       string
 }
 
@@ -43,6 +46,8 @@ var qeProfiles = map[string]*qeProfile{
 		rule: "every generated request text is parsed in both modes (ParseDefault, ParseOptimize) and evaluated on the same store; indexable shapes (name/host_name/groups/host_groups/primary key with = =~ ~ ~~) mixed with other terms, regexes with leading/trailing .* and ^...$"},
 	"c08": {name: "c08", pFilter: 40, pStats: 30, pSort: 0, pLimit: 0, pAuth: 100, pBackends: 0, pWrapped: 20, maxDepth: 2, maxBackends: 2, maxHosts: 8, perDataset: 12, tables: []string{"hosts", "services", "hostgroups", "servicegroups", "hostsbygroup", "servicesbygroup", "servicesbyhostgroup", "comments", "downtimes", "contacts", "commands"},
 		rule: "generated contact assignments x 4 authorisation settings x all tables x data and Stats requests with AuthUser and extra filters"},
+	"c17": {name: "c17", pGrouped: 25, pFilter: 90, pStats: 35, pSort: 40, pLimit: 30, pAuth: 15, pBackends: 10, pWrapped: 30, maxDepth: 3, maxBackends: 2, maxHosts: 8, perDataset: 10, tables: qeAllTables, bothModes: true, roundtrip: true,
+		rule: "every generated request (every operator x column type, nested negated groups, empty values, custom variable terms, Stats counters/aggregates incl. groupable blocks, Sort incl. custom variable keys, Limit/Offset, AuthUser) is parsed in both modes, serialised with Request.String(), parsed again and both are evaluated on the same store"},
 	"c04": {name: "c04", pFilter: 20, pStats: 20, pSort: 20, pLimit: 10, pAuth: 0, pBackends: 90, pWrapped: 70, maxDepth: 1, maxBackends: 4, maxHosts: 5, perDataset: 12, tables: append([]string{"sites", "sites"}, qeAllTables...), downBackends: true,
 		rule: "1-4 backends, random subset without data (down), all Backends header shapes (subset, unknown ids, duplicates), all tables incl. sites, json and wrapped_json"},
 }
@@ -58,9 +63,13 @@ func qeWorkDir() string {
 }
 
 // qeRunInputs evaluates the inputs (grouped by identical dataset pointer) and writes the cases file.
-func qeRunInputs(inputs []*qeInput, flags *verifStreamFlags, meta *vMeta) {
+func qeRunInputs(inputs []*qeInput, flags *verifStreamFlags, meta *vMeta, roundtrip bool, runModule string) {
 	var sb strings.Builder
-	sb.WriteString("From LMD Require Import QE.Run.\nOpen Scope N_scope.\nOpen Scope string_scope.\n")
+	if roundtrip {
+		sb.WriteString("From LMD Require Import C17.Run.\nOpen Scope N_scope.\nOpen Scope string_scope.\n")
+	} else {
+		sb.WriteString("From LMD Require Import " + runModule + ".\nOpen Scope N_scope.\nOpen Scope string_scope.\n")
+	}
 	names := []string{}
 	var lastDS *qeDataset
 	var lmd *Daemon
@@ -85,7 +94,11 @@ func qeRunInputs(inputs []*qeInput, flags *verifStreamFlags, meta *vMeta) {
 		}
 		if invalid {
 			// not a loadable snapshot (only produced by shrinking): trivially agreeing case
-			fmt.Fprintf(&sb, "Definition c%d : qcase := mkQ (mkCfg false true) [] true [] (OError 400).\n", i)
+			if roundtrip {
+				fmt.Fprintf(&sb, "Definition c%d : rcase := mkR (mkQ (mkCfg false true) [] true [] (OError 400)) [] (OError 400).\n", i)
+			} else {
+				fmt.Fprintf(&sb, "Definition c%d : qcase := mkQ (mkCfg false true) [] true [] (OError 400).\n", i)
+			}
 			names = append(names, fmt.Sprintf("c%d", i))
 			meta.add(fmt.Sprintf("invalid%d", i), false, in)
 
@@ -105,8 +118,18 @@ func qeRunInputs(inputs []*qeInput, flags *verifStreamFlags, meta *vMeta) {
 		for _, l := range in.Lines {
 			lines = append(lines, coqStr(l))
 		}
-		fmt.Fprintf(&sb, "Definition c%d : qcase := mkQ (mkCfg %s %s) %s %s %s\n  (%s).\n", i, coqBool(in.SvcStrict), coqBool(in.GrpStrict),
-			dsName, coqBool(in.Optimize), coqList(lines), obs.coq())
+		if roundtrip {
+			rtText, rtObs := qeRoundtrip(lmd, text, in.Optimize)
+			rtLines := []string{}
+			for _, l := range strings.Split(strings.TrimRight(rtText, "\n"), "\n") {
+				rtLines = append(rtLines, coqStr(l))
+			}
+			fmt.Fprintf(&sb, "Definition c%d : rcase := mkR (mkQ (mkCfg %s %s) %s %s %s\n  (%s))\n  %s\n  (%s).\n", i, coqBool(in.SvcStrict), coqBool(in.GrpStrict),
+				dsName, coqBool(in.Optimize), coqList(lines), obs.coq(), coqList(rtLines), rtObs.coq())
+		} else {
+			fmt.Fprintf(&sb, "Definition c%d : qcase := mkQ (mkCfg %s %s) %s %s %s\n  (%s).\n", i, coqBool(in.SvcStrict), coqBool(in.GrpStrict),
+				dsName, coqBool(in.Optimize), coqList(lines), obs.coq())
+		}
 		names = append(names, fmt.Sprintf("c%d", i))
 		meta.count("answer:" + obs.kind)
 		if obs.kind == "error" {
@@ -118,7 +141,11 @@ func qeRunInputs(inputs []*qeInput, flags *verifStreamFlags, meta *vMeta) {
 		}
 		meta.add(text+fmt.Sprintf("|%p|%v", in.DS, in.Optimize), nontrivial, in)
 	}
-	sb.WriteString("Definition cases : list qcase := " + coqList(names) + ".\n")
+	if roundtrip {
+		sb.WriteString("Definition cases : list rcase := " + coqList(names) + ".\n")
+	} else {
+		sb.WriteString("Definition cases : list qcase := " + coqList(names) + ".\n")
+	}
 	sb.WriteString("Definition M := Eval vm_compute in mismatches cases.\nPrint M.\n")
 	sb.WriteString("Definition SK := Eval vm_compute in skipped cases.\nPrint SK.\n")
 	if err := os.WriteFile(flags.out, []byte(sb.String()), 0o644); err != nil {
@@ -195,8 +222,34 @@ func qeMain(args []string) int {
 			}
 		}
 	}
-	qeRunInputs(inputs, flags, meta)
+	runModule := "QE.Run"
+	if prof.bothModes && !prof.roundtrip {
+		runModule = "C07.Run" // adds the cross-mode comparison of the model's answers
+	}
+	qeRunInputs(inputs, flags, meta, prof.roundtrip, runModule)
 	meta.write(flags.meta)
 
 	return 0
+}
+
+// qeRoundtrip parses the text in the given mode, serialises the request and evaluates the serialised text (ParseDefault).
+func qeRoundtrip(lmd *Daemon, text string, optimize bool) (str string, obs *qeObs) {
+	obs = &qeObs{kind: "error", code: 997}
+	defer func() {
+		if r := recover(); r != nil {
+			obs = &qeObs{kind: "error", code: 999, rawBody: fmt.Sprintf("panic: %v", r)}
+		}
+	}()
+	mode := ParseDefault
+	if optimize {
+		mode = ParseOptimize
+	}
+	req, _, err := NewRequest(context.Background(), lmd, bufio.NewReader(strings.NewReader(text)), mode)
+	if err != nil || req == nil {
+		return "", &qeObs{kind: "error", code: 400}
+	}
+	str = req.String()
+	obs = qeRunQuery(lmd, str, false)
+
+	return str, obs
 }
